@@ -70,8 +70,6 @@ def run(ctx, sess):
         ctx.note('C09.1/C09.2: no scratch-based gap fill found (wr_data_inner(self, scratch, count)); fill rules on the scratch are vacuous, C09.6 decides the replacement')
     single_packer(ctx, P)
     omission_criterion(ctx, P)
-    if not scratch_fill:
-        return
     # ---- C09.1
     dts = accepted_data_types(P)
     psz = P.fn('jls_datatype_parse_size')
@@ -83,110 +81,111 @@ def run(ctx, sess):
         FLOAT = int(fl, 0)
     except ValueError:
         raise AnalysisBroken('JLS_DATATYPE_BASETYPE_FLOAT not a plain constant: %r' % fl)
-    floats = [dt for dt in dts if fd.call(pbase, [dt]) == FLOAT]
-    nan_stores = 0
-    # blocks from which a gap-writing call is reachable (the overlap branch returns before them)
-    can_reach_skip = set()
-    work = [c.block.id for c in skip_calls]
-    while work:
-        bid = work.pop()
-        if bid in can_reach_skip:
-            continue
-        can_reach_skip.add(bid)
-        work.extend(p_.id for p_, _ in f.blocks[bid].preds)
-    for ev in f.stores():
-        lhs, rhs, o = ev.store_parts()
-        l0 = strip_casts(lhs)
-        if l0.get('op') != 'sub' or ev.block.id not in can_reach_skip:
-            continue
-        base = strip_casts(l0['k'][0])
-        if base.get('op') != 'ref':
-            continue
-        # pointer local aliasing the scratch
-        defs = [s for s in f.stores() if s.k == 'decl' and s.name == base['name'] and s.e is not None and
-                any(nd.get('op') == 'member' and nd.get('field') == 'buffer_u64' for nd in walk(s.e))]
-        if not defs:
-            continue
-        # under which data type?
-        under = None
-        for (bid, label) in control_deps_transitive(f, ev.block.id):
-            c = strip_casts(f.blocks[bid].cond) if f.blocks[bid].cond else None
-            if c is not None and c.get('op') == 'bin' and c['o'] == '==' and label == 'T' and any(nd.get('op') == 'member' and nd.get('field') == 'data_type' for nd in walk(c['k'][0])):
-                under = strip_casts(c['k'][1]).get('m') or c['k'][1].get('m') or const_of(c['k'][1])
-        r0 = strip_casts(rhs) if rhs is not None else None
-        is_nan = r0 is not None and (r0.get('fc') == 'nan' or r0.get('m') == 'NAN' or any(nd.get('fc') == 'nan' or nd.get('m') == 'NAN' for nd in walk(r0)))
-        nan_stores += 1
-        ctx.ob('C09.1', is_nan, f.name, 'gap fill store under %s' % under, ev.where(), 'stores NaN' if is_nan else 'float gap samples are filled with %s instead of NaN' % show(rhs))
-        # element type matches the data type
-        et = defs[0].t
-        want = {'JLS_DATATYPE_F32': 'p:f32', 'JLS_DATATYPE_F64': 'p:f64'}.get(under)
-        if want:
-            ctx.ob('C09.1', et == want, f.name, 'fill element type for %s' % under, ev.where(), 'fills through %s' % et)
-    ctx.floor('NaN fill stores', nan_stores, 2)
-    ctx.ob('C09.1', len(floats) == 2, f.name, 'float types covered', f.where(), 'float data types accepted: %s, fill branches: %d' % (['0x%x' % x for x in floats], nan_stores))
-    ms = [c for c in f.calls(('memset', '__builtin_memset', '__builtin___memset_chk')) if f.path(c.args[0]) is not None and f.path(c.args[0]).last_field() == 'buffer_u64'
-          and const_of(c.args[1]) == 0]
-    okz = bool(ms) and const_of(ms[0].args[2]) == scratch_bytes
-    ctx.ob('C09.1', okz, f.name, 'integer gap fill zeroes the whole scratch', ms[0].where() if ms else f.where(), 'memset(scratch, 0, %s), scratch is %d bytes' % (const_of(ms[0].args[2]) if ms else None, scratch_bytes))
-    # every path of the skip branch to the block writer passes a fill
-    fills = set(id(m) for m in ms)
-    for c in skip_calls:
-        # fill dominance: some fill store/memset on every path from entry to the call
-        fill_events = [ev for ev in f.events() if (ev.k == 'call' and id(ev) in fills)]
-        for ev in f.stores():
-            l0 = strip_casts(ev.store_parts()[0])
-            if l0.get('op') == 'sub' and strip_casts(l0['k'][0]).get('op') == 'ref' and strip_casts(l0['k'][0]).get('name') in ('f32', 'f64'):
-                fill_events.append(ev)
-        hdrs = set(h for h, body in loops(f).items() if any(ev in fill_events for bid in body for ev in f.blocks[bid].events)
-                   and not any(ev is c for bid in body for ev in f.blocks[bid].events))
-        w = find_path(f, 'entry', lambda e2, facts: 'stop' if e2 in fill_events else ('target' if e2 is c else None), refine=False,
-                      on_block_end=lambda b, facts: 'stop' if b.id in hdrs else None)
-        ctx.ob('C09.1', w is None, f.name, 'scratch is filled before it is written as gap samples', c.where(), 'every path fills' if w is None else 'the scratch can be written as gap samples without having been filled', w.render() if w else None)
-    # ---- C09.2
-    dt_path = None
-    for b in f.blocks.values():
-        if b.cond is None:
-            continue
-        for nd in walk(b.cond):
-            if nd.get('op') == 'member' and nd.get('field') == 'data_type':
-                from ..ir import path_of
-                dt_path = str(path_of(nd))
     ssb = None
     for ev in f.events('decl'):
         if ev.e is not None and any(nd.get('op') == 'call' and nd.get('callee') == 'jls_datatype_parse_size' for nd in walk(ev.e)):
             ssb = ev.name
-    if dt_path is None or ssb is None:
-        raise AnalysisBroken('data type path / sample size local not found in jls_wr_fsr_data')
-    call = skip_calls[0]
-    bad = []
-    okn = 0
-    for dt in dts:
-        w = fd.call(psz, [dt])
-        env = {dt_path: dt, ssb: w, 'data_length': 1}
-        vals = values_at(P, f, call, call.args[2], env)
-        consts = [v for v in vals if v is not None]
-        if not consts:
-            bad.append('0x%x: count not decidable' % dt)
-            continue
-        for v in consts:
-            need = (v * w + 7) // 8
-            if need > scratch_bytes:
-                bad.append('type 0x%x (width %d): up to %d samples = %d bytes are read from the %d-byte scratch' % (dt, w, v, need, scratch_bytes))
-            else:
-                okn += 1
-    ctx.ob('C09.2', not bad, f.name, 'gap fill count fits the scratch for every data type', call.where(),
-           '%d (type, count) pairs within %d bytes' % (okn, scratch_bytes) if not bad else '; '.join(bad[:3]) + (' (+%d more)' % (len(bad) - 3) if len(bad) > 3 else ''))
-    # the only non-constant definition of the count is the clamp to the remaining gap
-    for d in [s for s in f.stores() if strip_casts(s.store_parts()[0]).get('name') == 'buf_sz' and s.k == 'store']:
-        lhs, rhs, o = d.store_parts()
-        if o == '=' and const_of(rhs) is None and strip_casts(rhs).get('op') == 'ref':
-            clamp = False
-            for (bid, label) in control_deps_transitive(f, d.block.id):
+    if scratch_fill:
+        floats = [dt for dt in dts if fd.call(pbase, [dt]) == FLOAT]
+        nan_stores = 0
+        # blocks from which a gap-writing call is reachable (the overlap branch returns before them)
+        can_reach_skip = set()
+        work = [c.block.id for c in skip_calls]
+        while work:
+            bid = work.pop()
+            if bid in can_reach_skip:
+                continue
+            can_reach_skip.add(bid)
+            work.extend(p_.id for p_, _ in f.blocks[bid].preds)
+        for ev in f.stores():
+            lhs, rhs, o = ev.store_parts()
+            l0 = strip_casts(lhs)
+            if l0.get('op') != 'sub' or ev.block.id not in can_reach_skip:
+                continue
+            base = strip_casts(l0['k'][0])
+            if base.get('op') != 'ref':
+                continue
+            # pointer local aliasing the scratch
+            defs = [s for s in f.stores() if s.k == 'decl' and s.name == base['name'] and s.e is not None and
+                    any(nd.get('op') == 'member' and nd.get('field') == 'buffer_u64' for nd in walk(s.e))]
+            if not defs:
+                continue
+            # under which data type?
+            under = None
+            for (bid, label) in control_deps_transitive(f, ev.block.id):
                 c = strip_casts(f.blocks[bid].cond) if f.blocks[bid].cond else None
-                if c is not None and c.get('op') == 'bin' and c['o'] == '<' and label == 'T' and strip_casts(c['k'][0]).get('name') == strip_casts(rhs).get('name') \
-                        and strip_casts(c['k'][1]).get('name') == 'buf_sz':
-                    clamp = True
-            ctx.ob('C09.2', clamp, f.name, 'count only ever lowered to the remaining gap', d.where(), 'buf_sz = %s under %s < buf_sz: %s' % (show(rhs), show(rhs), clamp))
+                if c is not None and c.get('op') == 'bin' and c['o'] == '==' and label == 'T' and any(nd.get('op') == 'member' and nd.get('field') == 'data_type' for nd in walk(c['k'][0])):
+                    under = strip_casts(c['k'][1]).get('m') or c['k'][1].get('m') or const_of(c['k'][1])
+            r0 = strip_casts(rhs) if rhs is not None else None
+            is_nan = r0 is not None and (r0.get('fc') == 'nan' or r0.get('m') == 'NAN' or any(nd.get('fc') == 'nan' or nd.get('m') == 'NAN' for nd in walk(r0)))
+            nan_stores += 1
+            ctx.ob('C09.1', is_nan, f.name, 'gap fill store under %s' % under, ev.where(), 'stores NaN' if is_nan else 'float gap samples are filled with %s instead of NaN' % show(rhs))
+            # element type matches the data type
+            et = defs[0].t
+            want = {'JLS_DATATYPE_F32': 'p:f32', 'JLS_DATATYPE_F64': 'p:f64'}.get(under)
+            if want:
+                ctx.ob('C09.1', et == want, f.name, 'fill element type for %s' % under, ev.where(), 'fills through %s' % et)
+        ctx.floor('NaN fill stores', nan_stores, 2)
+        ctx.ob('C09.1', len(floats) == 2, f.name, 'float types covered', f.where(), 'float data types accepted: %s, fill branches: %d' % (['0x%x' % x for x in floats], nan_stores))
+        ms = [c for c in f.calls(('memset', '__builtin_memset', '__builtin___memset_chk')) if f.path(c.args[0]) is not None and f.path(c.args[0]).last_field() == 'buffer_u64'
+              and const_of(c.args[1]) == 0]
+        okz = bool(ms) and const_of(ms[0].args[2]) == scratch_bytes
+        ctx.ob('C09.1', okz, f.name, 'integer gap fill zeroes the whole scratch', ms[0].where() if ms else f.where(), 'memset(scratch, 0, %s), scratch is %d bytes' % (const_of(ms[0].args[2]) if ms else None, scratch_bytes))
+        # every path of the skip branch to the block writer passes a fill
+        fills = set(id(m) for m in ms)
+        for c in skip_calls:
+            # fill dominance: some fill store/memset on every path from entry to the call
+            fill_events = [ev for ev in f.events() if (ev.k == 'call' and id(ev) in fills)]
+            for ev in f.stores():
+                l0 = strip_casts(ev.store_parts()[0])
+                if l0.get('op') == 'sub' and strip_casts(l0['k'][0]).get('op') == 'ref' and strip_casts(l0['k'][0]).get('name') in ('f32', 'f64'):
+                    fill_events.append(ev)
+            hdrs = set(h for h, body in loops(f).items() if any(ev in fill_events for bid in body for ev in f.blocks[bid].events)
+                       and not any(ev is c for bid in body for ev in f.blocks[bid].events))
+            w = find_path(f, 'entry', lambda e2, facts: 'stop' if e2 in fill_events else ('target' if e2 is c else None), refine=False,
+                          on_block_end=lambda b, facts: 'stop' if b.id in hdrs else None)
+            ctx.ob('C09.1', w is None, f.name, 'scratch is filled before it is written as gap samples', c.where(), 'every path fills' if w is None else 'the scratch can be written as gap samples without having been filled', w.render() if w else None)
+        # ---- C09.2
+        dt_path = None
+        for b in f.blocks.values():
+            if b.cond is None:
+                continue
+            for nd in walk(b.cond):
+                if nd.get('op') == 'member' and nd.get('field') == 'data_type':
+                    from ..ir import path_of
+                    dt_path = str(path_of(nd))
+        if dt_path is None or ssb is None:
+            raise AnalysisBroken('data type path / sample size local not found in jls_wr_fsr_data')
+        call = skip_calls[0]
+        bad = []
+        okn = 0
+        for dt in dts:
+            w = fd.call(psz, [dt])
+            env = {dt_path: dt, ssb: w, 'data_length': 1}
+            vals = values_at(P, f, call, call.args[2], env)
+            consts = [v for v in vals if v is not None]
+            if not consts:
+                bad.append('0x%x: count not decidable' % dt)
+                continue
+            for v in consts:
+                need = (v * w + 7) // 8
+                if need > scratch_bytes:
+                    bad.append('type 0x%x (width %d): up to %d samples = %d bytes are read from the %d-byte scratch' % (dt, w, v, need, scratch_bytes))
+                else:
+                    okn += 1
+        ctx.ob('C09.2', not bad, f.name, 'gap fill count fits the scratch for every data type', call.where(),
+               '%d (type, count) pairs within %d bytes' % (okn, scratch_bytes) if not bad else '; '.join(bad[:3]) + (' (+%d more)' % (len(bad) - 3) if len(bad) > 3 else ''))
+        # the only non-constant definition of the count is the clamp to the remaining gap
+        for d in [s for s in f.stores() if strip_casts(s.store_parts()[0]).get('name') == 'buf_sz' and s.k == 'store']:
+            lhs, rhs, o = d.store_parts()
+            if o == '=' and const_of(rhs) is None and strip_casts(rhs).get('op') == 'ref':
+                clamp = False
+                for (bid, label) in control_deps_transitive(f, d.block.id):
+                    c = strip_casts(f.blocks[bid].cond) if f.blocks[bid].cond else None
+                    if c is not None and c.get('op') == 'bin' and c['o'] == '<' and label == 'T' and strip_casts(c['k'][0]).get('name') == strip_casts(rhs).get('name') \
+                            and strip_casts(c['k'][1]).get('name') == 'buf_sz':
+                        clamp = True
+                ctx.ob('C09.2', clamp, f.name, 'count only ever lowered to the remaining gap', d.where(), 'buf_sz = %s under %s < buf_sz: %s' % (show(rhs), show(rhs), clamp))
     # ---- C09.3: the overlap length `ov` (the difference of the expected and the submitted sample id) is skipped
     # exactly: for every accepted width w and every overlap 1..64, 8 * (byte advance) + (bit shift) == ov * w, shift < 8
     n3 = 0
@@ -327,124 +326,125 @@ def run(ctx, sess):
                    'k depends on isfinite(entry)' if ok else
                    'a non-finite (all-gap) summary entry is combined with weight `count`: statistics over a window containing a gap return NaN mean/std and min/max of 0')
     ctx.floor('summary-entry converters in reader.c', nconv, 2)
-    # ---- C09.5: every subscript of the scratch (directly or through a local pointer initialised from it) stays inside it
-    n5 = 0
-    ESZ = {'p:u8': 1, 'p:i8': 1, 'p:f32': 4, 'p:f64': 8, 'p:u64': 8, 'p:u16': 2, 'p:u32': 4}
-    aliases = {}
-    for d in f.stores():
-        if d.k == 'decl' and d.e is not None and (d.t or '').startswith('p:') and \
-                any(nd.get('op') == 'member' and nd.get('field') == 'buffer_u64' for nd in walk(d.e)):
-            aliases[d.name] = ESZ.get(d.t)
-    lp = loops(f)
+    if scratch_fill:
+        # ---- C09.5: every subscript of the scratch (directly or through a local pointer initialised from it) stays inside it
+        n5 = 0
+        ESZ = {'p:u8': 1, 'p:i8': 1, 'p:f32': 4, 'p:f64': 8, 'p:u64': 8, 'p:u16': 2, 'p:u32': 4}
+        aliases = {}
+        for d in f.stores():
+            if d.k == 'decl' and d.e is not None and (d.t or '').startswith('p:') and \
+                    any(nd.get('op') == 'member' and nd.get('field') == 'buffer_u64' for nd in walk(d.e)):
+                aliases[d.name] = ESZ.get(d.t)
+        lp = loops(f)
 
-    def ub(e, block, idx, w, depth=0):
-        """upper bound of an unsigned expression for sample width w (None = unbounded)"""
-        e0 = strip_casts(e)
-        if e0 is None or depth > 10:
-            return None
-        try:
-            return fd.ev(f, e0, {ssb: w})
-        except (Top, ZeroDivisionError, KeyError):
-            pass
-        op = e0.get('op')
-        if op == 'ref' and e0.get('rk') == 'local':
-            # loop variable: bounded by its loop condition  v < N
-            for h, body in lp.items():
-                if block.id in body:
-                    c = strip_casts(f.blocks[h].cond) if f.blocks[h].cond else None
-                    if c is not None and c.get('op') == 'bin' and c['o'] in ('<', '<=') and strip_casts(c['k'][0]).get('name') == e0['name']:
-                        if block.id != h or True:
-                            n_ub = ub(c['k'][1], f.blocks[h], len(f.blocks[h].events), w, depth + 1)
-                            if n_ub is not None:
-                                return n_ub - (1 if c['o'] == '<' else 0)
-            defs, entry = df.reaching_defs(f, e0['name'], block, idx)
-            vals = []
-            for d in defs:
-                lhs, rhs, o = d.store_parts()
-                if rhs is None:
-                    return None
-                if o == '=':
-                    v = ub(rhs, d.block, d.idx, w, depth + 1)
-                elif o == '/=':
-                    a_ = ub(lhs, d.block, d.idx, w, depth + 1)
+        def ub(e, block, idx, w, depth=0):
+            """upper bound of an unsigned expression for sample width w (None = unbounded)"""
+            e0 = strip_casts(e)
+            if e0 is None or depth > 10:
+                return None
+            try:
+                return fd.ev(f, e0, {ssb: w})
+            except (Top, ZeroDivisionError, KeyError):
+                pass
+            op = e0.get('op')
+            if op == 'ref' and e0.get('rk') == 'local':
+                # loop variable: bounded by its loop condition  v < N
+                for h, body in lp.items():
+                    if block.id in body:
+                        c = strip_casts(f.blocks[h].cond) if f.blocks[h].cond else None
+                        if c is not None and c.get('op') == 'bin' and c['o'] in ('<', '<=') and strip_casts(c['k'][0]).get('name') == e0['name']:
+                            if block.id != h or True:
+                                n_ub = ub(c['k'][1], f.blocks[h], len(f.blocks[h].events), w, depth + 1)
+                                if n_ub is not None:
+                                    return n_ub - (1 if c['o'] == '<' else 0)
+                defs, entry = df.reaching_defs(f, e0['name'], block, idx)
+                vals = []
+                for d in defs:
+                    lhs, rhs, o = d.store_parts()
+                    if rhs is None:
+                        return None
+                    if o == '=':
+                        v = ub(rhs, d.block, d.idx, w, depth + 1)
+                    elif o == '/=':
+                        a_ = ub(lhs, d.block, d.idx, w, depth + 1)
+                        try:
+                            b_ = fd.ev(f, rhs, {ssb: w})
+                        except (Top, ZeroDivisionError, KeyError):
+                            b_ = None
+                        v = a_ // b_ if (a_ is not None and b_) else None
+                    elif o in ('-=',):
+                        v = ub(lhs, d.block, d.idx, w, depth + 1)
+                    else:
+                        v = None
+                    if v is None:
+                        return None
+                    vals.append(v)
+                return max(vals) if vals and not entry else None
+            if op == 'cond':
+                ks = kids(e0)
+                c = strip_casts(ks[0])
+                # min idiom  (x < K) ? x : K
+                if c.get('op') == 'bin' and c['o'] in ('<', '<='):
+                    if show(strip_casts(c['k'][0])) == show(strip_casts(ks[1])) and show(strip_casts(c['k'][1])) == show(strip_casts(ks[2])):
+                        return ub(ks[2], block, idx, w, depth + 1)
+                a_, b_ = ub(ks[1], block, idx, w, depth + 1), ub(ks[2], block, idx, w, depth + 1)
+                return max(a_, b_) if a_ is not None and b_ is not None else None
+            if op == 'bin':
+                o = e0['o']
+                a_ = ub(e0['k'][0], block, idx, w, depth + 1)
+                b_ = ub(e0['k'][1], block, idx, w, depth + 1)
+                if o == '+' and a_ is not None and b_ is not None:
+                    return a_ + b_
+                if o == '*' and a_ is not None and b_ is not None:
+                    return a_ * b_
+                if o == '/' and a_ is not None:
                     try:
-                        b_ = fd.ev(f, rhs, {ssb: w})
+                        d_ = fd.ev(f, e0['k'][1], {ssb: w})
+                        return a_ // d_ if d_ else None
                     except (Top, ZeroDivisionError, KeyError):
-                        b_ = None
-                    v = a_ // b_ if (a_ is not None and b_) else None
-                elif o in ('-=',):
-                    v = ub(lhs, d.block, d.idx, w, depth + 1)
-                else:
-                    v = None
-                if v is None:
-                    return None
-                vals.append(v)
-            return max(vals) if vals and not entry else None
-        if op == 'cond':
-            ks = kids(e0)
-            c = strip_casts(ks[0])
-            # min idiom  (x < K) ? x : K
-            if c.get('op') == 'bin' and c['o'] in ('<', '<='):
-                if show(strip_casts(c['k'][0])) == show(strip_casts(ks[1])) and show(strip_casts(c['k'][1])) == show(strip_casts(ks[2])):
-                    return ub(ks[2], block, idx, w, depth + 1)
-            a_, b_ = ub(ks[1], block, idx, w, depth + 1), ub(ks[2], block, idx, w, depth + 1)
-            return max(a_, b_) if a_ is not None and b_ is not None else None
-        if op == 'bin':
-            o = e0['o']
-            a_ = ub(e0['k'][0], block, idx, w, depth + 1)
-            b_ = ub(e0['k'][1], block, idx, w, depth + 1)
-            if o == '+' and a_ is not None and b_ is not None:
-                return a_ + b_
-            if o == '*' and a_ is not None and b_ is not None:
-                return a_ * b_
-            if o == '/' and a_ is not None:
-                try:
-                    d_ = fd.ev(f, e0['k'][1], {ssb: w})
-                    return a_ // d_ if d_ else None
-                except (Top, ZeroDivisionError, KeyError):
+                        return a_
+                if o == '%' and b_ is not None:
+                    return b_ - 1
+                if o == '-' and a_ is not None:
                     return a_
-            if o == '%' and b_ is not None:
-                return b_ - 1
-            if o == '-' and a_ is not None:
-                return a_
-            if o == '>>' and a_ is not None:
-                return a_
-        return None
+                if o == '>>' and a_ is not None:
+                    return a_
+            return None
 
-    all_w = sorted(set(fd.call(psz, [dt]) for dt in dts))
-    for b in f.blocks.values():
-        items = [(ev.e, ev, ev.idx) for ev in b.events if ev.e is not None] + ([(b.cond, None, len(b.events))] if b.cond is not None else [])
-        for e, ev, pos in items:
-            for nd in walk(e):
-                if nd.get('op') != 'sub':
-                    continue
-                base = strip_casts(nd['k'][0])
-                if base.get('op') == 'member' and base.get('field') == 'buffer_u64':
-                    esz = 8
-                elif base.get('op') == 'ref' and base.get('name') in aliases:
-                    esz = aliases[base['name']]
-                else:
-                    continue
-                se = f.sub_event(nd['id']) or ev
-                where = se.where() if se is not None else '%s:%d' % (f.file, b.line)
-                n5 += 1
-                if esz is None:
-                    ctx.ob('C09.5', False, f.name, 'scratch via %s[%s]' % (base.get('name'), show(nd['k'][1])), where, 'element size of %s unknown' % base.get('name'))
-                    continue
-                worst = None
-                for w in all_w:
-                    u = ub(nd['k'][1], b, pos, w)
-                    if u is None:
-                        worst = (w, None)
-                        break
-                    if worst is None or (u + 1) * esz > (worst[1] + 1) * esz:
-                        worst = (w, u)
-                ok5 = worst is not None and worst[1] is not None and (worst[1] + 1) * esz <= scratch_bytes
-                ctx.ob('C09.5', ok5, f.name, 'scratch[%s] via %s' % (show(nd['k'][1]), base.get('name') or 'buffer_u64'), where,
-                       'largest index %s (width %s) x %d bytes within %d' % (worst[1], worst[0], esz, scratch_bytes) if ok5 else
-                       ('index not bounded for width %s' % worst[0] if worst and worst[1] is None else
-                        'index up to %s (width %s) x %d bytes exceeds the %d-byte scratch' % (worst[1], worst[0], esz, scratch_bytes)))
-    ctx.floor('scratch subscripts', n5, 3)
+        all_w = sorted(set(fd.call(psz, [dt]) for dt in dts))
+        for b in f.blocks.values():
+            items = [(ev.e, ev, ev.idx) for ev in b.events if ev.e is not None] + ([(b.cond, None, len(b.events))] if b.cond is not None else [])
+            for e, ev, pos in items:
+                for nd in walk(e):
+                    if nd.get('op') != 'sub':
+                        continue
+                    base = strip_casts(nd['k'][0])
+                    if base.get('op') == 'member' and base.get('field') == 'buffer_u64':
+                        esz = 8
+                    elif base.get('op') == 'ref' and base.get('name') in aliases:
+                        esz = aliases[base['name']]
+                    else:
+                        continue
+                    se = f.sub_event(nd['id']) or ev
+                    where = se.where() if se is not None else '%s:%d' % (f.file, b.line)
+                    n5 += 1
+                    if esz is None:
+                        ctx.ob('C09.5', False, f.name, 'scratch via %s[%s]' % (base.get('name'), show(nd['k'][1])), where, 'element size of %s unknown' % base.get('name'))
+                        continue
+                    worst = None
+                    for w in all_w:
+                        u = ub(nd['k'][1], b, pos, w)
+                        if u is None:
+                            worst = (w, None)
+                            break
+                        if worst is None or (u + 1) * esz > (worst[1] + 1) * esz:
+                            worst = (w, u)
+                    ok5 = worst is not None and worst[1] is not None and (worst[1] + 1) * esz <= scratch_bytes
+                    ctx.ob('C09.5', ok5, f.name, 'scratch[%s] via %s' % (show(nd['k'][1]), base.get('name') or 'buffer_u64'), where,
+                           'largest index %s (width %s) x %d bytes within %d' % (worst[1], worst[0], esz, scratch_bytes) if ok5 else
+                           ('index not bounded for width %s' % worst[0] if worst and worst[1] is None else
+                            'index up to %s (width %s) x %d bytes exceeds the %d-byte scratch' % (worst[1], worst[0], esz, scratch_bytes)))
+        ctx.floor('scratch subscripts', n5, 3)
     realign_reads_rule(ctx, P, f, fd, psz, dts)
     level0_stats_rule(ctx, P)
     narrowing_rule(ctx, P)
